@@ -7,6 +7,7 @@ import (
 	"go/types"
 	"os"
 	"path/filepath"
+	"regexp"
 	"sort"
 	"strings"
 
@@ -324,7 +325,7 @@ func (e *Engine) VerifyFunc(key, prop string) (res *FuncResult) {
 	v.runRoot(fn, fc)
 	for ord := range fc.Loops {
 		if !v.loopsFound[ord] {
-			sfail("contract %s has a loop #%d that does not exist in the function", key, ord)
+			v.note("contract %s has a loop #%d that does not exist in the function (ignored)", key, ord)
 		}
 	}
 	res.Obls = v.obls
@@ -414,6 +415,39 @@ func (v *FnVerifier) runRoot(fn *ssa.Function, fc *FuncContract) {
 	}
 	if g := And(fgoals...); g.S != "true" {
 		v.oblige("frame", fc.Key+"/frame", nil, TTrue, g, v.pos(fn.Pos()), "writes stay inside the modifies clause")
+	}
+	// ---- onlywrites: a syntactic frame over whole array families (covers fresh objects too)
+	for _, cl := range fc.Of("onlywrites") {
+		if !cl.HasTag(v.prop) {
+			continue
+		}
+		fam, err1 := regexp.Compile(cl.Family)
+		alw, err2 := regexp.Compile(cl.Allowed)
+		if err1 != nil || err2 != nil {
+			sfail("%s:%d: bad regular expression in onlywrites", cl.File, cl.Line)
+		}
+		var bad []string
+		for _, ex := range f.exits {
+			for _, k := range ex.state.keys() {
+				if !fam.MatchString(k) || alw.MatchString(k) {
+					continue
+				}
+				if ex.state.arr[k].S != v.entryArr(k, v.arrSort[k]).S {
+					bad = append(bad, k)
+				}
+			}
+		}
+		goal := TTrue
+		src := cl.Src
+		if len(bad) > 0 {
+			goal = TFalse
+			src += "  -- written: " + strings.Join(dedup(bad), ", ")
+		}
+		tag := ""
+		if len(cl.Tags) > 0 {
+			tag = "[" + strings.Join(cl.Tags, ",") + "]"
+		}
+		v.oblige("frame", fmt.Sprintf("%s/onlywrites#%d%s", fc.Key, cl.Ord, tag), cl.Tags, TTrue, goal, fmt.Sprintf("%s:%d", strings.TrimPrefix(cl.File, "/repo/"), cl.Line), src)
 	}
 	// ---- safety, one obligation per class
 	classes := keysOfTerms(v.safe)
